@@ -160,7 +160,7 @@ pub fn run(tier: Tier, seed: u64) -> i32 {
     let mut rep = Report::new("C15", tier, seed);
     rep.exhaustive = true;
     rep.level = "fault_enumeration";
-    rep.rule = "enumeration: for every fund-moving instruction (swap x2, two-hop x2, increase x3, decrease x2, reposition, collect fees x2, collect reward x2, collect protocol fees x2, set-emissions x2, initialize reward x2, update-fees, close/reset/lock/transfer/bundle family, pool-level setters) a golden invocation that must succeed, then for every account slot that is bound by the property (pool, vaults, tick arrays, oracle, position, mints, reward vault, token/memo/system/ATA programs, config, lock config, bundle) every other account of the same kind found in the bank is substituted (supplemental tick arrays of swap_v2 included; vault <- every other token account of the same mint incl. other pools' vaults, the pool's own reward vaults and user accounts; tick array / oracle / position <- those of other pools; mint <- other mints; program <- other executables ...): the instruction must fail. User-owned token account slots are substituted with accounts of another mint (must fail). Every program slot is also given an attacker's program whose id shares the last byte (or the first two and last two bytes) with the expected one and whose CPI would succeed: must fail. Every token account / mint slot is also given a byte-identical twin owned by a program that is not a token program (random id; ids sharing the last byte with Token / Token-2022): must fail. Pair substitutions: position + its token account of a position in another pool (same owner), once holding liquidity and once empty (early-return paths for zero liquidity must not skip the pool check); second leg of a two-hop replaced by the first pool. v1 instructions (increase, decrease, swap, collect fees, collect protocol fees) on a pool over two extension-less Token-2022 mints with either token program in the slot must fail. distinct = (instruction, slot, kind of substitute)".into();
+    rep.rule = "enumeration: for every fund-moving instruction (swap x2, two-hop x2, increase x3, decrease x2, reposition, collect fees x2, collect reward x2, collect protocol fees x2, set-emissions x2, initialize reward x2, update-fees, close/reset/lock/transfer/bundle family, pool-level setters) a golden invocation that must succeed, then for every account slot that is bound by the property (pool, vaults, tick arrays, oracle, position, mints, reward vault, token/memo/system/ATA programs, config, lock config, bundle) every other account of the same kind found in the bank is substituted (supplemental tick arrays of swap_v2 included; vault <- every other token account of the same mint incl. other pools' vaults, the pool's own reward vaults and user accounts; tick array / oracle / position <- those of other pools; mint <- other mints; program <- other executables ...): the instruction must fail. User-owned token account slots are substituted with accounts of another mint (must fail). Every program slot is also given an attacker's program whose id shares the last byte (or the first two and last two bytes) with the expected one and whose CPI would succeed: must fail. Every token account / mint slot is also given a byte-identical twin owned by a program that is not a token program (random id; ids sharing the last byte with Token / Token-2022): must fail. Pair substitutions: position + its token account of a position in another pool (same owner), once holding liquidity and once empty (early-return paths for zero liquidity must not skip the pool check); second leg of a two-hop replaced by the first pool; a two-hop out and back through ONE pool whose two legs use disjoint tick arrays (price in the last slot of its array) must fail in v1 and v2, both modes. v1 instructions (increase, decrease, swap, collect fees, collect protocol fees) on a pool over two extension-less Token-2022 mints with either token program in the slot must fail. distinct = (instruction, slot, kind of substitute)".into();
     rep.assumptions = vec!["the bound/free classification of slots is written in the harness from the property statement".into(), "substitutes are the accounts present in the catalogue world (6 pools over shared and disjoint mints, 2 configs, reward vaults holding pool mints)".into()];
     let mut acc = Acc::default();
     let flavours = tier.pick(1, 3);
@@ -430,7 +430,66 @@ pub fn run(tier: Tier, seed: u64) -> i32 {
             }
         }
     }
+    // ---- a two-hop that names the SAME pool for both legs, out and back (A -> B -> A), arranged so that the two legs
+    // use disjoint tick arrays (the price sits in the last slot of its array: a-to-b reads [k, k-1, k-2], b-to-a
+    // reads [k+1, k+2, k+3]) - nothing but the duplicate-pool rule stands in its way; with and without a control
+    // that the same legs work as single swaps
+    {
+        let mut w = crate::world::World::new(crate::rnd::rng(seed ^ 0xd0b1e));
+        let c = w.add_config(300);
+        let (m1, m2) = (w.add_spl_mint(6), w.add_spl_mint(6));
+        let u = w.add_user();
+        for sp in [64u16, 8] {
+            let tia = 88 * sp as i32;
+            let t0 = 87 * sp as i32 + tia * 3;
+            let Ok(p) = w.add_pool(c, m1, m2, sp, 3000, whirlpool::math::sqrt_price_from_tick_index(t0), false) else {
+                acc.count("harness_errors");
+                continue;
+            };
+            let (lo, hi) = (t0 - 87 * sp as i32 - 2 * tia, t0 - 87 * sp as i32 + 4 * tia);
+            let (ix, info) = w.open_position_ix(p, u, lo, hi, false);
+            if !w.exec(ix).ok() {
+                acc.count("harness_errors");
+                continue;
+            }
+            w.positions.push(info);
+            let i = w.positions.len() - 1;
+            for k in -2..=4 {
+                w.ensure_tick_array(p, t0 - 87 * sp as i32 + k * tia, k % 2 == 0);
+            }
+            let ix = w.modify_v2(i).increase_liquidity_v2(50_000_000_000, u64::MAX, u64::MAX, None);
+            if !w.exec(ix).ok() {
+                acc.count("harness_errors");
+                continue;
+            }
+            let bank = w.bank.clone();
+            // control: each leg alone is an ordinary swap
+            for dir in [true, false] {
+                let ix = w.swap_ix(p, u, 100_000, 0, 0, true, dir, true);
+                if w.simulate(&bank, &ix).0.ok() {
+                    acc.count("same_pool_two_hop_control_legs_ok");
+                }
+            }
+            for v2 in [false, true] {
+                for (d1, d2) in [(true, false), (false, true)] {
+                    for exact_in in [true, false] {
+                        let ix = w.two_hop_ix(p, p, u, 100_000, if exact_in { 0 } else { u64::MAX }, exact_in, d1, d2, 0, 0, v2);
+                        let (o, _) = w.simulate(&bank, &ix);
+                        acc.evaluations += 1;
+                        acc.situation(format!("same_pool_out_and_back:{v2}:{d1}:{exact_in}"));
+                        if o.ok() {
+                            acc.violation(format!("c15:{}:whirlpool_two:same_pool_out_and_back", ix.name), format!("{} succeeded with the same pool on both legs (a_to_b {d1} then {d2}, exact_in {exact_in}, disjoint tick arrays)", ix.name), json!({"instruction": crate::hist::ix_brief(&ix)}));
+                        } else {
+                            acc.count("same_pool_out_and_back_rejected");
+                        }
+                    }
+                }
+            }
+        }
+    }
     rep.acc = acc;
+    rep.floor("same_pool_out_and_back_rejected", 8);
+    rep.floor("same_pool_two_hop_control_legs_ok", 2);
     rep.floor("v1_on_token2022_pool_rejected", 10);
     rep.floor("goldens_ok", 60);
     rep.floor("substitutions_rejected", 3000);
